@@ -67,13 +67,13 @@ def legs(quick):
             design.append(dict(D, module="F_Maglev", cfg=cfg, coverage=False, thorough_timeout=1500))
     out = [dict(BASE, design=design,
                 gen={"module": "Gen_Maglev", "cfg": "Gen_5.cfg", "thorough_cfg": "Gen_7.cfg", "workers": 4,
-                     "max": 800, "thorough_max": 15000, "thorough_timeout": 1200},
-                n_random=(100, 1500)),
+                     "max": 800, "thorough_max": 10000, "thorough_timeout": 1200},
+                n_random=(100, 1000)),
            dict(BASE, design=[], gen=None, n_random=(0, 0),
                 driver={"cmd": "maglev", "env": {"VERIF_MAGLEV_SIZES": "60" if quick else "0"}})]
     if not quick:
         out.append(dict(BASE, design=[],
-                        gen={"module": "Gen_Maglev", "cfg": "Gen_5_4.cfg", "workers": 4, "max": 10000, "timeout": 1200,
+                        gen={"module": "Gen_Maglev", "cfg": "Gen_5_4.cfg", "workers": 4, "max": 6000, "timeout": 1200,
                              "thorough_timeout": 1200},
                         n_random=(0, 0)))
     return out
